@@ -156,9 +156,18 @@ type concurrent struct {
 	stop    chan struct{}
 	wg      sync.WaitGroup
 	queries int64
-	fixed   sync.Map // "height|query" -> answer bytes
 	errs    chan string
 	reqs    []concReq
+	latestMu sync.Mutex
+	latest   []latestObs
+	fixedMu  sync.Mutex
+	fixedAns map[string][][]byte
+}
+
+type latestObs struct {
+	name   string
+	ans    []byte
+	lo, hi int64 // the last committed height before and after the call
 }
 
 type concReq struct {
@@ -168,7 +177,7 @@ type concReq struct {
 }
 
 func newConcurrent(c *Chain, reqs []concReq, workers int) *concurrent {
-	cc := &concurrent{stop: make(chan struct{}), errs: make(chan string, 64), reqs: reqs}
+	cc := &concurrent{stop: make(chan struct{}), errs: make(chan string, 64), reqs: reqs, fixedAns: map[string][][]byte{}}
 	cc.app.Store(c)
 	for w := 0; w < workers; w++ {
 		cc.wg.Add(1)
@@ -201,9 +210,14 @@ func (cc *concurrent) worker(id uint64) {
 		a := c.App
 		rq := cc.reqs[r.Intn(len(cc.reqs))]
 		latest := a.LastBlockHeight()
-		var h int64
-		if r.Intn(3) > 0 && latest > 1 {
-			h = 1 + int64(r.Intn(int(latest)))
+		var h int64 // a third each: latest (0), the explicit height that is latest right now, a random earlier height
+		switch r.Intn(3) {
+		case 1:
+			h = latest
+		case 2:
+			if latest > 1 {
+				h = 1 + int64(r.Intn(int(latest)))
+			}
 		}
 		res := a.Query(abci.RequestQuery{Path: rq.path, Data: rq.data, Height: h})
 		cc.mu.RUnlock()
@@ -219,11 +233,30 @@ func (cc *concurrent) worker(id uint64) {
 		if served == 0 {
 			continue
 		}
-		// every answer served at height s must be THE answer of height s (no matter what is executing)
-		key := fmt.Sprintf("%d|%s", served, rq.name)
-		if prev, loaded := cc.fixed.LoadOrStore(key, ans); loaded && !bytes.Equal(prev.([]byte), ans) {
-			cc.report(fmt.Sprintf("query %s at committed height %d returned two different answers (%d and %d bytes) while blocks were executing", rq.name, served, len(prev.([]byte)), len(ans)))
+		if h == 0 {
+			// "latest": the answer must be the state of SOME committed height; which one is decided at rest (the
+			// height label of a latest query may lag behind the version actually read)
+			cc.latestMu.Lock()
+			if len(cc.latest) < 20000 {
+				cc.latest = append(cc.latest, latestObs{rq.name, ans, latest, a.LastBlockHeight()})
+			}
+			cc.latestMu.Unlock()
+			continue
 		}
+		// a fixed height: every answer served at height s must be THE answer of height s, no matter what is executing;
+		// all distinct answers are kept and judged at rest
+		key := fmt.Sprintf("%d|%s", served, rq.name)
+		cc.fixedMu.Lock()
+		found := false
+		for _, a0 := range cc.fixedAns[key] {
+			if bytes.Equal(a0, ans) {
+				found = true
+			}
+		}
+		if !found && len(cc.fixedAns[key]) < 8 {
+			cc.fixedAns[key] = append(cc.fixedAns[key], ans)
+		}
+		cc.fixedMu.Unlock()
 	}
 }
 
@@ -234,28 +267,63 @@ func (cc *concurrent) finish(x *Exec) {
 	for e := range cc.errs {
 		x.Flag("C20-snapshot", e)
 	}
-	// the answers recorded while blocks were executing must equal the answers now, at rest
 	c := cc.app.Load()
 	n := 0
-	cc.fixed.Range(func(k, v any) bool {
-		parts := strings.SplitN(k.(string), "|", 2)
-		var h int64
-		fmt.Sscanf(parts[0], "%d", &h)
+	rest := map[string][]byte{}
+	atRest := func(name string, h int64) []byte {
+		k := fmt.Sprintf("%d|%s", h, name)
+		if v, ok := rest[k]; ok {
+			return v
+		}
 		for _, rq := range cc.reqs {
-			if rq.name == parts[1] {
+			if rq.name == name {
 				res := c.App.Query(abci.RequestQuery{Path: rq.path, Data: rq.data, Height: h})
 				ans := append([]byte(fmt.Sprintf("%d/%s/", res.Code, res.Codespace)), res.Value...)
 				if res.Code != 0 {
 					ans = append(ans, []byte(queryErrClass(res))...)
 				}
-				if !bytes.Equal(ans, v.([]byte)) {
-					x.Flag("C20-snapshot", fmt.Sprintf("query %s at height %d: the answer given while blocks were executing differs from the answer of the committed state", rq.name, h))
-				}
-				n++
+				rest[k] = ans
+				return ans
 			}
 		}
-		return n < 4000
-	})
+		return nil
+	}
+	top := c.App.LastBlockHeight()
+	// fixed heights: every answer given while blocks were executing must be the at-rest answer of that height.  One
+	// deviation is a known defect of the store (finding K6): a read at the then-latest height that iterates takes IAVL's
+	// fast-node path, and if a Commit lands between the "is this the latest version" test and the iteration it returns
+	// the entries of the NEXT version under the old height.
+	for key, answers := range cc.fixedAns {
+		parts := strings.SplitN(key, "|", 2)
+		var h int64
+		fmt.Sscanf(parts[0], "%d", &h)
+		want := atRest(parts[1], h)
+		for _, a0 := range answers {
+			n++
+			if bytes.Equal(a0, want) {
+				continue
+			}
+			if h+1 <= top && bytes.Equal(a0, atRest(parts[1], h+1)) {
+				x.Flag("C20-snapshot-iavl-fast-iterator", fmt.Sprintf("query %s at the fixed height %d, served while height %d was being committed, returned the answer of height %d", parts[1], h, h+1, h+1))
+			} else {
+				x.Flag("C20-snapshot", fmt.Sprintf("query %s at the fixed committed height %d returned, while blocks were executing, an answer that is not the state of that height (nor of the next): %.200q instead of %.200q", parts[1], h, a0, want))
+			}
+		}
+	}
+	// latest: the answer must be the state of SOME committed height in the window of the call
+	for _, o := range cc.latest {
+		ok := false
+		for h := o.lo; h <= o.hi+1 && h <= top; h++ {
+			if h >= 1 && bytes.Equal(atRest(o.name, h), o.ans) {
+				ok = true
+				break
+			}
+		}
+		if !ok && o.lo <= top {
+			x.Flag("C20-snapshot", fmt.Sprintf("a latest-height query %s, served while the last committed height went from %d to %d, returned an answer that is the state of none of these committed heights: %.200q", o.name, o.lo, o.hi, o.ans))
+		}
+	}
+	x.Stats["conc-latest-checked"] += len(cc.latest)
 	x.Stats["conc-queries"] += int(atomic.LoadInt64(&cc.queries))
 	x.Stats["conc-rechecked"] += n
 }
